@@ -104,7 +104,7 @@ variable (a b : S)
 /-- `C12_frame`: the side conditions hold for, e.g., `delete x` and the name `y`. -/
 example (t : Tok S) (ht : t.lexeme = "x".toList) :
     (Stmt.deleteVar t ≠ .clear) ∧ some "y".toList ≠ (Stmt.deleteVar t).target := by
-  refine ⟨by intro e; cases e, ?_⟩
+  refine ⟨(by intro e; cases e), ?_⟩
   simp [Stmt.target, ht]
 
 /-- `C12_copy_independent` / `C12_copy_made`: a table in which `f` is a user function and `h`
@@ -115,7 +115,7 @@ example (h f : Tok S) (hh : h.lexeme = "h".toList) (hf : f.lexeme = "f".toList) 
     ∀ w, Env.get ([("f".toList, ⟨.user fn, false⟩)] : Env S) h.lexeme = some w →
       w.constant = false := by
   rw [hh, hf]
-  refine ⟨by decide, rfl, ?_⟩
+  refine ⟨(by decide), rfl, ?_⟩
   intro w hw
   simp [Env.get] at hw
 
